@@ -175,6 +175,9 @@ def strata():
                      gen_cfg.model_and_spec(force=['deep_ns', 'ref_extern', 'prefix_ports'], want_mc=True),
                      gen_cfg.model_and_spec(force=['global_enc'], want_mc=True),
                      gen_cfg.model_and_spec(force=['repeat_ns', 'many_ports'], want_mixed=True),
+                     # names drawn from the literals of the code under test
+                     gen_cfg.model_and_spec(force=['dict_names', 'many_ports'], want_mixed=True),
+                     gen_cfg.model_and_spec(force=['dict_names', 'deep_ns'], want_mc=True),
                      # inout formals on out events (accepted by the parser): compile-only oracle
                      gen_cfg.model_and_spec(force=['out_inout', 'many_requires'], want_mixed='MS')]
 
